@@ -169,7 +169,8 @@ def run_wire(n, script, entries, rng, node_mod, pauses=None):
     actually requested.  Same observation tuple as run_impl."""
     import json as _json
     uris = [f'http://node{k}.test:8732' for k in range(n)]
-    urls, state = [], {}
+    urls, verbs, state = [], [], {}
+    resolved = []
 
     class FakeRequests:
         exceptions = requests.exceptions
@@ -178,6 +179,7 @@ def run_wire(n, script, entries, rng, node_mod, pauses=None):
         @staticmethod
         def request(**kw):
             urls.append(str(kw.get('url')))
+            verbs.append(str(kw.get('method')))
             return state['f']()
 
     def response(status, body, ctype='application/json'):
@@ -204,6 +206,7 @@ def run_wire(n, script, entries, rng, node_mod, pauses=None):
             if pauses:
                 clock.t += pauses[i]
             del urls[:]
+            del verbs[:]
             tok = {'tok': i}
             exc = None
             if sym in 'SRTt':
@@ -233,10 +236,14 @@ def run_wire(n, script, entries, rng, node_mod, pauses=None):
                 state['f'] = boom
             path = f'/chains/main/blocks/head/{i}'
             if entry == 'request':
-                ok, val = lib.call(mn.request, rng.choice(['GET', 'POST', 'PUT', 'DELETE']), path, timeout=3)
+                verb = rng.choice(['GET', 'POST', 'PUT', 'DELETE'])
+                resolved.append(f'request:{verb}')
+                ok, val = lib.call(mn.request, verb, path, timeout=3)
             elif entry == 'post':
+                resolved.append(entry)
                 ok, val = lib.call(mn.post, path, json={'x': i})
             else:
+                resolved.append(entry)
                 ok, val = lib.call(getattr(mn, entry), path)
             hit_u, hits = [], []
             for u in urls:
@@ -249,8 +256,8 @@ def run_wire(n, script, entries, rng, node_mod, pauses=None):
                 good = (not ok) and isinstance(val, node_mod.RpcError)
             else:
                 good = (not ok) and val is exc
-            if hits and len(set(hits)) == 1 and good:
-                ev = ('Sent', hits[0], sym)
+            if hits and len(set(hits)) == 1 and len(set(verbs)) == 1 and verbs[0] in ('GET', 'POST', 'PUT', 'DELETE') and good:
+                ev = ('Sent', hits[0], sym, verbs[0])
             elif not hits and not ok and isinstance(val, AssertionError):
                 ev = ('AssertFailed',)
             else:
@@ -260,7 +267,7 @@ def run_wire(n, script, entries, rng, node_mod, pauses=None):
             contacted_uris.append(hit_u)
         v = getattr(mn, '_next_i', None)
         final = v if isinstance(v, int) and 0 <= v < BAD else BAD
-        return events, final, contacted, contacted_uris, uris
+        return events, final, contacted, contacted_uris, uris, resolved
     finally:
         clock.__exit__()
         node_mod.requests, node_mod.sleep = saved
@@ -301,6 +308,30 @@ def coq_obs(obs):
     return f'({clist(out)}, {cnat(final)})'
 
 
+CALL = {'get': 'CGet', 'post': 'CPost', 'put': 'CPut', 'delete': 'CDelete'}
+
+
+def coq_call(entry):
+    return f'(CRequest {entry.split(":")[1]})' if entry.startswith('request:') else CALL[entry]
+
+
+def coq_wire_case(n, script, resolved, pauses):
+    pz = pauses or [0] * len(script)
+    return f'({cnat(n)}, {clist(f"(({p})%Z, ({coq_call(e)}, {SYM[s]}))" for p, e, s in zip(pz, resolved, script))})'
+
+
+def coq_wire_obs(obs):
+    out = []
+    for ev in obs[0]:
+        if ev[0] == 'Sent':
+            out.append(f'Wire {cnat(min(ev[1], BAD))} {ev[3]} {SYM[ev[2]]}')
+        elif ev[0] == 'AssertFailed':
+            out.append('WAssert')
+        else:
+            out.append(f'Wire {cnat(BAD)} GET Success')
+    return f'({clist(out)}, {cnat(obs[1])})'
+
+
 def scripts(ctx):
     """(n, script) pairs: exhaustive part."""
     out = []
@@ -330,7 +361,7 @@ def run(ctx: lib.Ctx) -> None:
                 '(request/get/post/put/delete, mixed, uniform, and one odd call among requests) with pytezos.rpc.node.requests stubbed and the target of EVERY HTTP request read off the URL, incl. nodes answering transient 5xx through all retries, and with the clocks stubbed and pauses of 0 s .. 1 day between requests; plus random scripts of length 11..60 for 1..7 nodes and pairs of '
                 'clients used alternately. non-trivial = at least one failing outcome before the last request and n >= 2; '
                 'distinct = distinct (n, script)')
-    cases, meta = [], []
+    cases, meta, cidx = [], [], []
 
     def add(n, script, obs, kind):
         script = tuple(script)
@@ -338,6 +369,7 @@ def run(ctx: lib.Ctx) -> None:
         ctx.case((n, script, tuple(obs[4])), nontrivial=nontriv, kind=kind,
                  sample={'nodes': n, 'uris': obs[4], 'script': ''.join(script), 'targets': [h for h in obs[2]], 'final_next_i': obs[1]})
         cases.append((coq_case(n, script), coq_obs(obs)))
+        cidx.append(len(meta))
         meta.append((n, script, obs))
 
     # witnesses of repaired defects (findings/C28.json "fixed")
@@ -357,14 +389,18 @@ def run(ctx: lib.Ctx) -> None:
                 for tup in itertools.product(alpha, repeat=ln):
                     add(n, tup, run_impl(n, tup, ctx.rng, node_mod, pat), f'repeated-address:n{n}')
     # every public entry point, HTTP layer stubbed, target read off the requested URL
+    wcases, wmeta = [], []
+
     def add_wire(n, tup, entries, kind, pauses=None):
         obs = run_wire(n, tup, entries, ctx.rng, node_mod, pauses)
         script = tuple(tup)
         ctx.case((n, script, tuple(entries), tuple(pauses or ())), nontrivial=n >= 2 and len(script) > 1, kind=kind,
                  sample={'nodes': n, 'script': ''.join(script), 'entry_points': list(entries), 'pauses_s': pauses, 'urls': obs[3], 'final_next_i': obs[1]})
         ctx.dist.update(f'entry:{e}' for e in entries)
-        cases.append((coq_case(n, script), coq_obs(obs)))
-        meta.append((n, script, obs + (list(entries), pauses)))
+        resolved = obs[5]
+        wcases.append((coq_wire_case(n, script, resolved, pauses), coq_wire_obs(obs)))
+        wmeta.append(len(meta))
+        meta.append((n, script, obs[:5] + (resolved, pauses)))
 
     for n in (1, 2, 3, 4):
         for ln in range(1, ctx.n(4, 6) + 1):                       # mixed entry points
@@ -412,6 +448,10 @@ def run(ctx: lib.Ctx) -> None:
 
     bad = ctx.coq_mismatches(f'multinode{os.getpid()}', IMPORTS, 'run_case', 'obs_eqb', 'nat * list outcome', 'list event * nat',
                              cases, shard=ctx.n(1000, 2000))
+
+    wbad = ctx.coq_mismatches(f'multinodewire{os.getpid()}', IMPORTS, 'run_timed_case', 'wire_obs_eqb',
+                              'nat * list (BinNums.Z * (call * outcome))', 'list wire_event * nat', wcases, shard=ctx.n(1000, 2000))
+    bad = sorted([cidx[i] for i in bad] + [wmeta[i] for i in wbad])
 
     # (B) on every observation; report the shortest failing scripts
     fails = []
